@@ -920,8 +920,10 @@ class AirTouch4(pyairtouch.api.AirTouch):
                 retry_policy=pyairtouch.comms.socket.RETRY_CONNECTED,
             )
 
-    async def _message_received(  # noqa: C901
-        self, _: pyairtouch.at4.comms.hdr.At4Header, message: pyairtouch.comms.Message
+    async def _message_received(  # noqa: C901, PLR0912
+        self,
+        header: pyairtouch.at4.comms.hdr.At4Header,
+        message: pyairtouch.comms.Message,
     ) -> None:
         # Process messages according to the current state.
         # Unexpected messages are silently ignored.
@@ -945,6 +947,23 @@ class AirTouch4(pyairtouch.api.AirTouch):
             ) if (self._state == _AirTouchState.INIT_GROUP_NAMES):
                 self._process_group_names_message(group_names)
                 # Move to the next state
+                self._state = _AirTouchState.INIT_AC_ABILITY
+                ability_request = extended_msg.ExtendedMessage(
+                    ac_ability_msg.AcAbilityRequest(ac_number="ALL")
+                )
+                await self._socket.send(
+                    message=ability_request,
+                    retry_policy=pyairtouch.comms.socket.RETRY_CONNECTED,
+                )
+
+            case extended_msg.ExtendedMessage(group_names_msg.GroupNamesRequest()) if (
+                header.to_address == pyairtouch.at4.comms.hdr.ADDRESS_CLIENT
+                and self._state == _AirTouchState.INIT_GROUP_NAMES
+            ):
+                # A Group Names Message without any groups is indistinguishable
+                # from a request. When it is addressed to us it is the
+                # response for a system with no groups configured (see also
+                # "Support for systems without zones" in docs/design.md).
                 self._state = _AirTouchState.INIT_AC_ABILITY
                 ability_request = extended_msg.ExtendedMessage(
                     ac_ability_msg.AcAbilityRequest(ac_number="ALL")
@@ -992,6 +1011,19 @@ class AirTouch4(pyairtouch.api.AirTouch):
             ):
                 await self._process_group_status_message(groups)
                 # Move to the next state
+                self._state = _AirTouchState.CONNECTED
+                await self._heartbeat_manager.start()
+                self._group_status_request_task = self._loop.create_task(
+                    self._group_status_request_loop()
+                )
+                self._initialised_event.set()
+
+            case group_status_msg.GroupStatusRequest() if (
+                header.to_address == pyairtouch.at4.comms.hdr.ADDRESS_CLIENT
+                and self._state == _AirTouchState.INIT_GROUP_STATUS
+            ):
+                # A Group Status Message without any groups (system with no
+                # groups configured) is indistinguishable from a request.
                 self._state = _AirTouchState.CONNECTED
                 await self._heartbeat_manager.start()
                 self._group_status_request_task = self._loop.create_task(
